@@ -51,11 +51,13 @@ static void hook_free(const volatile void *p) { if (p) --heap_live; }
 static long heap_base;
 
 /* ---------- counted harness objects ---------- */
+/* solo: the object refuses further references (addref answers 0, as the library's small text metatypes do);
+ * its counter starts at 0 and is 1 while its single owner holds it */
 struct Obj {
 	long refs, under;
-	int  id;
+	int  id, solo;
 	void unref() { if (refs <= 0) ++under; else --refs; }
-	uintptr_t addref() { return (uintptr_t) ++refs; }
+	uintptr_t addref() { return solo ? 0 : (uintptr_t) ++refs; }
 };
 static Obj objs[MAXO + 1];
 
@@ -63,10 +65,11 @@ class HMeta : public metatype
 {
 public:
 	long refs, under;
-	HMeta() : refs(1), under(0) { }
+	int solo;
+	HMeta() : refs(1), under(0), solo(0) { }
 	virtual ~HMeta() { }
 	void unref() __MPT_OVERRIDE { if (refs <= 0) ++under; else --refs; }
-	uintptr_t addref() __MPT_OVERRIDE { return (uintptr_t) ++refs; }
+	uintptr_t addref() __MPT_OVERRIDE { return solo ? 0 : (uintptr_t) ++refs; }
 	metatype *clone() const __MPT_OVERRIDE { return 0; }
 };
 static HMeta *metas[MAXO + 1];
@@ -215,17 +218,25 @@ static void answer(struct cmd *c, const char *ret, long long out, long long rc =
 	drv_end();
 }
 
-static Obj *obj_take(long o)          /* a reference of its own for the callee */
+/* a reference of its own for the callee; of a non-shareable object the only one (busy() says when it is taken) */
+static Obj *obj_take(long o)
 {
 	if (o < 1 || o > no) return 0;
-	objs[o].addref();
+	if (objs[o].solo) objs[o].refs = 1;
+	else objs[o].addref();
 	return &objs[o];
 }
 static HMeta *meta_take(long o)
 {
 	if (o < 1 || o > no) return 0;
-	metas[o]->addref();
+	if (metas[o]->solo) metas[o]->refs = 1;
+	else metas[o]->addref();
 	return metas[o];
+}
+static bool busy(long o)
+{
+	if (o < 1 || o > no) return false;
+	return kind == K_GROUP ? (metas[o]->solo && metas[o]->refs > 0) : (objs[o].solo && objs[o].refs > 0);
 }
 
 static void step_ref(struct cmd *c, int h)
@@ -385,9 +396,20 @@ static void drv_step(struct cmd *c)
 		if (no > MAXO) no = MAXO;
 		kind = (k && !strcmp(k, "item")) ? K_ITEM : (k && !strcmp(k, "group")) ? K_GROUP : K_REF;
 		for (int i = 0; i <= MAXO; i++) {
-			objs[i].refs = 1; objs[i].under = 0; objs[i].id = i;
+			objs[i].refs = 1; objs[i].under = 0; objs[i].id = i; objs[i].solo = 0;
 			if (!metas[i]) metas[i] = new HMeta;
-			metas[i]->refs = 1; metas[i]->under = 0;
+			metas[i]->refs = 1; metas[i]->under = 0; metas[i]->solo = 0;
+		}
+		{
+			size_t nl = 0;
+			uint8_t *sl = drv_bytes(c, "solo", &nl);
+			for (size_t i = 0; i < nl; i++) {
+				if (sl[i] >= 1 && sl[i] <= MAXO) {
+					objs[sl[i]].solo = 1; objs[sl[i]].refs = 0;
+					metas[sl[i]]->solo = 1; metas[sl[i]]->refs = 0;
+				}
+			}
+			free(sl);
 		}
 		if (kind == K_REF) R = new RA[MAXH];
 		if (kind == K_ITEM) I = new IA[MAXH];
@@ -407,6 +429,11 @@ static void drv_step(struct cmd *c)
 	}
 	if (h < 0 || h >= nh || (kind == K_GROUP && !G[h])) {
 		drv_begin(c); j_str("ret", "bad-handle"); drv_dbg(); drv_end();
+		return;
+	}
+	if (drv_has(c, "o") && busy((long) drv_int(c, "o", 0))
+	    && strcmp(a, "rclear") && strcmp(a, "gclear")) {
+		answer(c, "skipped", 0);          /* the non-shareable object has its owner: nothing to hand over */
 		return;
 	}
 	if (!strcmp(a, "copy")) {
